@@ -4,6 +4,7 @@ CONSTANTS
   Dirs <- DirsOut
   Sizes <- SizesBig
   LowLs <- LowYes
+  Fees = FALSE
   MaxRestarts = 1
   WatcherConfusesPending = FALSE
   RelaunchUsesAllSets = FALSE
